@@ -17,16 +17,20 @@ SYNTH = [
     "numa:3(memory=4096) pu:1",
     "pack:1 pu:1",
     "pack:2 [numa(memorysidecachesize=1MB)] pu:2",
+    # os_index differs from logical_index on every level
+    "pack:2 numa:2(indexes=3,1,2,0) pu:2",
+    "numa:3(indexes=2,0,1) core:2(indexes=3,1,5,0,4,2) pu:2(indexes=numa:core)",
+    "pack:2(indexes=5,2) [numa(indexes=7,4)] core:2 pu:1(indexes=3,0,2,1)",
     "pack:2 [numa(memory=1000)] [numa(memory=2000)] core:2 pu:1",
     "group:2 pack:2 l2:1 l1i:1 pu:1",
 ]
-XMLS = ["tests/hwloc/xml/24em64t-2n6c2t-pci.xml", "tests/hwloc/xml/8intel64-4n2t-memattrs.xml",
+XMLS = ["tests/hwloc/xml/16em64t-4s2c2t-offlines.xml", "tests/hwloc/xml/24em64t-2n6c2t-pci.xml", "tests/hwloc/xml/8intel64-4n2t-memattrs.xml",
         "tests/hwloc/xml/16-2gr2gr2n2c+misc.xml", "tests/hwloc/xml/16amd64-4distances.xml"]
 
 
 def topo_lines(repo, tier):
     res = ["topo synthetic " + s for s in SYNTH]
-    for x in XMLS if tier == "thorough" else XMLS[:3]:
+    for x in XMLS if tier == "thorough" else XMLS[:4]:
         p = os.path.join(repo, x)
         if os.path.exists(p):
             res.append("topo xml " + p)
@@ -577,4 +581,29 @@ def refname_cases(base):
                 for n, entries in ((0, []), (2, ["D a 1 0 name - %s %s" % (hx("a"), hx("b")), "D a -3 0 size 0 1 2"])):
                     cases.append(["case ref-e%d-i%d-%s-n%d" % (e, i, nm, n), "xmlbackend %d %d" % (e, i), "refname " + tok, XML_TOPO,
                                   "xmlhand %d" % n] + entries + ["end"])
+    return cases
+
+
+# ---- non-identity numbering: os_index != logical_index on NUMA / PU / Core / Package levels (shuffled synthetic
+# indexes, sparse XML ids, after a restrict that dropped the lower-numbered nodes): every NUMA node's memory edited ----
+INDEX_TOPOS = [
+    (["topo synthetic pack:2 numa:2(indexes=3,1,2,0) pu:2"], 4),
+    (["topo synthetic numa:3(indexes=2,0,1) core:2(indexes=3,1,5,0,4,2) pu:2(indexes=numa:core)"], 3),
+    (["topo synthetic pack:2(indexes=5,2) [numa(indexes=7,4)] core:2 pu:1(indexes=3,0,2,1)"], 2),
+    (["topo synthetic numa:4 pu:2", "a restrict fc 1"], 3),
+    (["topo synthetic pack:3 numa:1 core:2 pu:1", "a restrict 3c 1"], 2),
+]
+
+
+def index_cases(rng):
+    cases = []
+    for ti, (topo, nnuma) in enumerate(INDEX_TOPOS):
+        for n in range(nnuma):
+            cases.append(["case index-t%d-numa%d" % (ti, n), "xmlbackend %d" % (n & 1)] + topo +
+                         ["b mem -3 %d %d" % (n, 1000 + n), "build", "end"])
+        cases.append(["case index-t%d-all" % ti, "xmlbackend 1"] + topo +
+                     ["b mem -3 %d %d" % (n, 5000 + 7 * n) for n in range(nnuma)] +
+                     ["a name 1 0 %s" % hx("p"), "b name 1 0 %s" % hx("q"), "a infoadd 1 1 %s %s" % (hx("K"), hx("v")),
+                      "b infoset 1 1 0 %s" % hx("w"), "build",
+                      "hand 0 2", "D a -3 %d size 0 1073741824 9" % (nnuma - 1), "D a -3 0 size 0 1073741824 8", "end"])
     return cases
